@@ -16,6 +16,8 @@ func HandlePrograms(fs string) []Prog {
 	// steps on a file handle / directory handle
 	fileSteps := []fsx.Call{
 		{Op: "H.Read", N: 2}, {Op: "H.ReadAt", N: 2, M: 1}, {Op: "H.Write", Data: "W"}, {Op: "H.WriteAt", Data: "V", N: 0},
+		// a write that lands beyond the end: the gap and the new size are computed from the size read before
+		{Op: "H.WriteAt", Data: "U", N: 5},
 		{Op: "H.Seek", N: 0, M: 0}, {Op: "H.Truncate", N: 1}, {Op: "H.Stat"}, {Op: "H.Sync"}, {Op: "H.Name"}, {Op: "H.Close"},
 	}
 	dirSteps := []fsx.Call{
